@@ -245,3 +245,59 @@ Example statement_parser_nonvacuous :
   = SOk (StSelect (Select 0 false [EField 7 KeyKW] ["k"] 16
                      (EBin 26 OEq (EField 22 KeyKW) (EStr 28 "a")) None None (Some (Limit 32 2 3)))).
 Proof. vm_compute. reflexivity. Qed.
+
+(* ---------------------------------------------------------------- TEXT level (gap (1) of the
+   level text closed): the lexer twin of C16 (Model/Lexer.v, [lex] = Lexer.Split) run on the TEXT
+   Expression.String() returns ([render_text] = ExprParser.render).  Model/RenderText.v reads the
+   rendering as a sequence of lexemes with their blanks ([ritems]); Proofs/RenderTextProofs.v shows
+   that sequence admissible for C16's lexemes_lex_to_their_tokens, its text to be the rendering
+   and its tokens to be [rtoks].
+
+   [txt_ok e] says which leaves are excluded -- exactly those the printer cannot print faithfully:
+     - a string literal containing ' (it is printed between ' and the language has no escape);
+     - a name printed in backticks (not [plain_name]: empty, upper case, a keyword, number-like,
+       or holding a byte the lexer treats specially), or an alias reference, containing a backtick;
+     - a NUMBER / FLOAT literal whose text is not a word the lexer reads back as that kind of token
+       with that text ([word_lit]; every NUMBER / FLOAT token the lexer produces is one).
+   No bound on size or depth; no hypothesis on the shape of the tree for the first two theorems. *)
+From KV Require Import Base.Bytes Model.Lexer Spec.LexSpec Model.RenderText Proofs.RenderTextProofs.
+
+(* Lexer.Split of the rendered text: one token per lexeme of the rendering, each at the offset of
+   its lexeme in the text *)
+Theorem lex_render_text : forall e, txt_ok e = true ->
+  lex (render_text e) = expected (ritems "" e []) 0.
+Proof. exact lex_render_text_thm. Qed.
+Print Assumptions lex_render_text.
+
+(* ... which are, offsets apart, the tokens print_parse is stated over *)
+Theorem lex_render_rtoks : forall e, txt_ok e = true ->
+  map strip (lex (render_text e)) = rtoks e.
+Proof. exact lex_render_rtoks_thm. Qed.
+Print Assumptions lex_render_rtoks.
+
+(* print, LEX, parse: the tree comes back (up to positions and alias references read as names) *)
+Theorem print_parse_text : forall e, rt_ok e = true -> txt_ok e = true ->
+  exists e', parse_expr_top (lex (render_text e)) = POk e' [] /\ erase e' = erase e.
+Proof. exact print_parse_text_thm. Qed.
+Print Assumptions print_parse_text.
+
+(* the tree with every construct: hypotheses hold, the text lexes to 51 tokens at their true
+   offsets, and the parse of the lexed text is the tree with the offsets of the text *)
+Example print_parse_text_nonvacuous :
+  rt_ok ex_tree = true /\ txt_ok ex_tree = true /\
+  length (lex (render_text ex_tree)) = 51 /\
+  nth 3 (lex (render_text ex_tree)) (Tok SEMI "" 0) = Tok KEY "key" 3 /\
+  nth 22 (lex (render_text ex_tree)) (Tok SEMI "" 0) = Tok OPERATOR "between" 47 /\
+  map strip (lex (render_text ex_tree)) = rtoks ex_tree /\
+  exists e', parse_expr_top (lex (render_text ex_tree)) = POk e' [] /\ erase e' = erase ex_tree
+             /\ e' <> erase ex_tree.
+Proof.
+  repeat split; try (vm_compute; reflexivity).
+  eexists. split; [vm_compute; reflexivity|]. split; [vm_compute; reflexivity|]. discriminate.
+Qed.
+
+(* what txt_ok excludes is excluded for a reason: 'a'b' is not one literal *)
+Example print_parse_text_quote_excluded :
+  let e := EBin 0 OEq (EField 0 KeyKW) (EStr 0 "a'b") in
+  rt_ok e = true /\ txt_ok e = false /\ map strip (lex (render_text e)) <> rtoks e.
+Proof. cbv zeta. repeat split; try (vm_compute; reflexivity). vm_compute. discriminate. Qed.
